@@ -46,6 +46,11 @@ theorem take_takeWhile_length (p : Nat → Bool) : ∀ l : List Nat, l.take (l.t
     | true => simp only [List.takeWhile_cons, hp, if_true, List.length_cons, List.take_succ_cons, take_takeWhile_length p t]
     | false => simp [List.takeWhile_cons, hp]
 
+theorem takeWhile_all (p : Nat → Bool) : ∀ l : List Nat, (∀ x ∈ l, p x = true) → l.takeWhile p = l
+  | [], _ => rfl
+  | x :: t, h => by
+    rw [List.takeWhile_cons, h x (by simp), if_pos rfl, takeWhile_all p t (fun y hy => h y (by simp [hy]))]
+
 theorem eff_fromCStr {s s' : St} (h : Inv s) {v tmp : Nat} (hv : v < s.n) (ht : tmp < s.n) (hne : v ≠ tmp)
     (h0 : absVar s tmp = []) {src : List Nat} (e : fromCStr s v src tmp = some s') :
     Eff s s' v ((src.takeWhile (· ≠ 0)).map some) := by
